@@ -4,6 +4,8 @@
 # libFuzzer (cargo-fuzz target harness/fuzz `vfuzz`), the fuzzer's bytes being the tape of the group's
 # case function (same generators, same oracle, same known-findings list as the seeded driver).
 # A saved crashing input is turned into a replay file and re-judged by `vcheck <ID> replay`.
+# Each group's slice is bounded by the run count and by VERIF_FUZZ_MAX_S seconds (default 1200), whichever
+# comes first; reaching the time bound is not a failure.
 # exit 0 = nothing found, 1 = VIOLATION line printed, 2 = inconclusive (build failure, timeout, oom,
 # crash that does not reproduce). Groups whose names match VERIF_FUZZ_SKIP (regex) are skipped.
 set -u
@@ -43,7 +45,7 @@ for i in range(48):
     open(f"{d}/seed{i:02d}", "wb").write(r.randbytes(n))
 PY
   VERIF_FUZZ_PROP="$ID" VERIF_FUZZ_GROUP="$g" VERIF_SEED="$SEED" "$BIN" -runs="$RUNS" -seed="$SEED" -max_len="$len" -len_control=0 \
-     -timeout=300 -rss_limit_mb=12000 -print_final_stats=1 -artifact_prefix="$d/artifacts/" "$d/corpus" >"$d/log.txt" 2>&1
+     -timeout=300 -rss_limit_mb=12000 -max_total_time="${VERIF_FUZZ_MAX_S:-1200}" -print_final_stats=1 -artifact_prefix="$d/artifacts/" "$d/corpus" >"$d/log.txt" 2>&1
   echo $? > "$d/rc"
 }
 export -f run_group; export WORK ID SEED RUNS BIN
